@@ -52,6 +52,7 @@ type leakArgs struct {
 	SkipConsistency bool                      `json:"skip_consistency,omitempty"`
 	Malformed      bool                       `json:"malformed,omitempty"`
 	Opts           *loadOpts                  `json:"opts,omitempty"` // round 6: loader options that change what later stages see
+	Pre            *preSpec                   `json:"pre,omitempty"`  // round 7: the compose files are handed over already parsed (types.ConfigFile.Config), with shared Go values
 }
 
 type leakFail struct {
@@ -288,7 +289,35 @@ func realLeak(raw json.RawMessage) any {
 	if err != nil {
 		return map[string]any{"bad": "materialize: " + err.Error()}
 	}
-	p, err := loader.LoadWithContext(context.Background(), req.Details(root), func(o *loader.Options) {
+	details := req.Details(root)
+	// round 7: the model as a program builds it — already parsed, one Go map / slice value placed at several positions
+	var callerDicts []map[string]any
+	var callerBefore []string
+	if a.Pre != nil {
+		for i, f := range a.ConfigFiles {
+			var d map[string]any
+			if err := yaml.Unmarshal([]byte(files[f]), &d); err != nil {
+				return map[string]any{"bad": "pre-parse: " + err.Error()}
+			}
+			if i == 0 {
+				if err := a.Pre.share(d); err != nil {
+					return map[string]any{"bad": "pre-parse: " + err.Error()}
+				}
+			}
+			details.ConfigFiles[i].Config = d
+			callerDicts = append(callerDicts, d)
+			callerBefore = append(callerBefore, dumpTree(d))
+		}
+	}
+	callerUnchanged := func() (string, bool) {
+		for i, d := range callerDicts {
+			if after := dumpTree(d); after != callerBefore[i] {
+				return fmt.Sprintf("the caller's parsed model of %s was modified by the load: before %s, after %s", a.ConfigFiles[i], callerBefore[i], after), false
+			}
+		}
+		return "", true
+	}
+	p, err := loader.LoadWithContext(context.Background(), details, func(o *loader.Options) {
 		o.SkipValidation = a.SkipValidation
 		o.SkipConsistencyCheck = a.SkipConsistency
 		o.ResolvePaths = true
@@ -310,6 +339,9 @@ func realLeak(raw json.RawMessage) any {
 					return map[string]any{"ok": map[string]any{"fails": []leakFail{{"leak:error-message", fmt.Sprintf("the load error quotes the value of %q (include env file): %s", v, core.ScrubErr(err, root))}}}}
 				}
 			}
+		}
+		if what, ok := callerUnchanged(); !ok && !a.Malformed {
+			return map[string]any{"ok": map[string]any{"fails": []leakFail{{"mutated:caller-model", what}}}}
 		}
 		return map[string]any{"err": "rejected", "class": classifyLoadErr(err.Error()), "text": core.ScrubErr(err, root)}
 	}
@@ -380,6 +412,11 @@ func realLeak(raw json.RawMessage) any {
 			return k
 		}
 		return "unused"
+	}
+
+	// 0. (round 7) the caller's parsed model is the caller's: the load writes nothing into it (no carrier key, no name, no content)
+	if what, ok := callerUnchanged(); !ok {
+		add("mutated:caller-model", "%s", what)
 	}
 
 	// 1. the value is available on the loaded project
@@ -716,4 +753,61 @@ func registerC20Oracle() {
 			return nil
 		},
 	})
+}
+
+// ---------------------------------------------------------------- round 7: models handed over already parsed
+
+// preAlias places the Go value found at From (a mapping or a sequence of the parsed first compose file) at every path
+// of To as well — the same map / slice value, not a copy.  Wrap puts it inside a one-element sequence at the target.
+type preAlias struct {
+	From []string   `json:"from"`
+	To   [][]string `json:"to"`
+	Wrap bool       `json:"wrap,omitempty"`
+}
+
+type preSpec struct {
+	Aliases []preAlias `json:"aliases"`
+}
+
+func (s *preSpec) share(d map[string]any) error {
+	for _, al := range s.Aliases {
+		v, ok := lookupPath(d, al.From...)
+		if !ok {
+			continue // the layout moved that section to another file
+		}
+		switch v.(type) {
+		case map[string]any, []any:
+		default:
+			return fmt.Errorf("alias source %v is a %T", al.From, v)
+		}
+		for _, to := range al.To {
+			m := d
+			for _, k := range to[:len(to)-1] {
+				next, ok := m[k].(map[string]any)
+				if !ok {
+					if _, exists := m[k]; exists {
+						return fmt.Errorf("alias target %v crosses a %T", to, m[k])
+					}
+					next = map[string]any{}
+					m[k] = next
+				}
+				m = next
+			}
+			if al.Wrap {
+				m[to[len(to)-1]] = []any{v}
+			} else {
+				m[to[len(to)-1]] = v
+			}
+		}
+	}
+	return nil
+}
+
+// dumpTree is a deterministic text of a parsed model (encoding/json sorts the keys; shared values are written at every place).
+func dumpTree(d map[string]any) string {
+	b, err := json.Marshal(d)
+	if err != nil {
+		return "unencodable: " + err.Error()
+	}
+	return string(b)
 }
